@@ -472,7 +472,7 @@ fn one_execution(ctx: &Ctx, out: &mut Outcome, plan: Plan, mut rng: Rng, idx: u6
         out.count("executions_in_dual_write_phase", 1);
         out.count("dual_write_copies_uploaded", events_brief.iter().filter(|e| e["op"] == "PUT" && e["phase"] == "return" && e["path"].as_str().map(|p| p.contains("shard=new-")).unwrap_or(false)).count() as u64);
     }
-    out.count("lost_cas_races_injected", events_brief.iter().filter(|e| e["actor"] == "contender").count() as u64);
+    out.count("lost_cas_races_injected", events_brief.iter().filter(|e| e["actor"] == "contender" && e["phase"] == "return").count() as u64);
     out.count("writes_refused_with_retry_exhaustion", events_brief.iter().filter(|e| e["result"].as_str().map(|s| s.to_lowercase().contains("retries")).unwrap_or(false)).count() as u64);
     if plan.contention.map(|(_, c)| c >= 5).unwrap_or(false) && !plan.local_backend {
         out.count("executions_with_a_retry_exhausting_burst", 1);
